@@ -732,6 +732,10 @@ def explore_maps(prop, tier, seed, n_quick, mode):
                     v = h.compare_genomes_vertically(gs[a], gs[d]); m = v.map
                     o.put('vmap', ob.vmapS(v))
                     o.put('upmap', ob.upmapS(m))
+                    if mode == 'C06' and D.families:
+                        # duplicated copies and retained genes of this branch against the top-down walk over the HISTORIES
+                        # (theorem C06_reported_count_is_the_history)
+                        o.put('hrep', '%s>%s=%d,%d' % (taxS(a), taxS(d), sum(len(x_) for x_ in v.get_duplicated().values()), len(v.get_retained())))
                     if mode == 'C06' and D.families and gen.sub(D.T, d)[1]:
                         # the number of gained genes over this (arbitrary) branch against what the HISTORIES say: lineages at d of
                         # the families that start strictly below a (theorem C06_gained_count_is_the_history; the driver
@@ -787,7 +791,7 @@ def explore_maps(prop, tier, seed, n_quick, mode):
             bad = ['comparison raised %s: %s' % (type(e).__name__, e)]
         if bad:
             ex.fail(cid, D, bad)
-        tags = {'C05': ['vmap'], 'C06': ['vmap', 'upmap', 'hgain', 'hlost'], 'C07': ['upmap'], 'C08': ['lmap', 'lagg', 'vmap', 'verr', 'lerr']}[mode]
+        tags = {'C05': ['vmap'], 'C06': ['vmap', 'upmap', 'hgain', 'hlost', 'hrep'], 'C07': ['upmap'], 'C08': ['lmap', 'lagg', 'vmap', 'verr', 'lerr']}[mode]
         if D.meta.get('large'):
             ex.res.count('large_datasets'); continue
         ex.submit(cid, D, o.tags, ['load'] + tags, queries=queries)
